@@ -310,7 +310,7 @@ theorem next_go_has (d : D) (s : PhraseSel) : ∀ (fuel : Nat) (t s' : PhraseSel
           | .ok true => .ok t'
           | .ok false => PhraseSel.next.go env s d fuel t'
           | .panic p => .panic p
-          | .outOfFuel => .outOfFuel) = .ok s' →
+          | .outOfFuel => .outOfFuel : Outcome PhraseSel) = .ok s' →
         NextInv s s' ∧
         (PhraseSel.rangeHasPhrase env s' d s'.begin_ s'.end_ = .ok true ∨ (s'.begin_ = s.begin_ ∧ s'.end_ = s.end_)) ∧
         (C01.Anchor s → s.Within → t.Within → s'.Within) := by
